@@ -1419,6 +1419,27 @@ class RestAPI(object):
                 cause = params.get("cause")
 
                 """
+                The cause is optional. The error name is what fails the Task
+                (a response without an errorType is a successful response),
+                so it has to be given. Both have to be strings.
+                """
+                if error is None or error == "":
+                    self.logger.warning(
+                        "RestAPI SendTaskFailure: error must be specified"
+                    )
+                    return aws_error("MissingRequiredParameter"), 400
+
+                if cause is None:
+                    cause = ""
+
+                if not isinstance(error, str) or not isinstance(cause, str):
+                    self.logger.error(
+                        "RestAPI SendTaskFailure: ValidationError: error and "
+                        "cause must be strings."
+                    )
+                    return aws_error("ValidationError"), 400
+
+                """
                 First check if the error or cause exceed length limits.
                 """
                 if len(error) > 256:
